@@ -36,6 +36,7 @@ pub fn point_code(name: &str) -> i128 {
         "cb:o2h" => 9,
         "cb:h2o" => 10,
         "cb:h2c" => 11,
+        "cb:oracle" => 12,
         "panic" => 99,
         _ => 98,
     }
